@@ -247,6 +247,8 @@ def prune(spec):
                 used_files.add(p)
             for p in op.get("argv", ()):
                 used_files.add(p)
+            if op["op"] == "write":
+                used_files.add(op["path"])
     fs = s.get("fs") or {}
     for k in ("files", "binfiles", "faults"):
         if fs.get(k):
